@@ -696,6 +696,22 @@ theorem update_weight_sets_every_tracked_dimension (c : CalcD) (name : Nat) (w :
   · simp [h, setWeight]
   · simp [h] at hname
 
+/-- a min change of a quota also refreshes the request its node carries (a quota that does not lend asks for
+    max(children, min)): after `doUpdateOneGroupMinQuotaNoLock` both inputs of the division are the current ones
+    in every tracked dimension. -/
+theorem min_change_refreshes_request (c : CalcD) (name : Nat) (newMin newLimitReq : RL) (d : Nat)
+    (hd : c.keys.contains d = true) :
+    ∀ n ∈ (c.minQuotaChanged name newMin newLimitReq).trees d, n.name = name →
+      n.min = rlGet newMin d ∧ n.request = rlGet newLimitReq d := by
+  intro n hn hname
+  have hd' : (c.updateMin name newMin).keys.contains d = true := hd
+  obtain ⟨n1, h1, rfl⟩ := calcD_update_mem setRequest (c.updateMin name newMin) name newLimitReq d hd' n hn
+  have hm := update_min_sets_every_tracked_dimension c name newMin d hd n1 h1
+  by_cases h : n1.name = name
+  · simp only [h, if_true]
+    exact ⟨by simpa [setRequest] using hm.1 h, by simp [setRequest]⟩
+  · simp [h] at hname
+
 /-- the trees are a function of the LAST declared list only: an earlier update of the same quota leaves
     no trace (no history dependence through the min / weight glue). -/
 theorem update_min_last_wins (c : CalcD) (name : Nat) (l1 l2 : RL) (d : Nat) :
